@@ -19,7 +19,7 @@ def out(f, v):
     try:
         return f(v)
     except TypeError as e:
-        return "AMBIGUOUS" if str(e).startswith("Ambiguous") else "NOMETHOD" if str(e).startswith("No method") else f"TypeError:{str(e)[:40]}"
+        return "AMBIGUOUS" if __import__("_errs").amb(str(e)) else "NOMETHOD" if __import__("_errs").nomethod(str(e)) else f"TypeError:{str(e)[:40]}"
 
 
 def main():
